@@ -14,16 +14,28 @@ for m in re.finditer(r'Definition (\w+) : list \(string \* \(string \* string\)\
         if mm:
             ents.append(mm.groups())
     tables[m.group(1)] = ents
+inv = open(os.path.join(V, "coq/gen/GenInventory.v")).read()
+invs = {m.group(1): m.group(2) for m in re.finditer(r'Definition (\w+) : list string := (\[.*?\n\])\.', inv, re.S)}
+tabs = open(os.path.join(V, "coq/gen/GenTables.v")).read()
+ptabs = {m.group(1): m.group(2) for m in re.finditer(r'Definition (\w+) : list \(string \* string\) := (\[.*?\n\])\.', tabs, re.S)}
 name, title = sys.argv[1], sys.argv[2]
 out = ["(* Per-run obligations %s: %s." % (name, title),
        "   The expected texts below were frozen from the source the models in this",
        "   development were written against (bin/mkoblig.py); coq/gen is regenerated",
        "   from /repo on every run and these Examples are re-checked by the kernel. *)",
        "From Coq Require Import String List Bool.", "From GV Require Import Base.Tables.",
-       "From GVGen Require Import GenBodies.", "Open Scope string_scope.", ""]
+       "From GVGen Require Import GenBodies GenInventory GenTables.", "Import ListNotations.", "Open Scope string_scope.", ""]
 n = 0
 for spec in sys.argv[3:]:
     tbl, key = spec.split(":", 1)
+    if tbl == "inv":
+        out.append("Example %s_inv_%s :\n  list_eqb %s %s = true.\nProof. vm_compute. reflexivity. Qed.\n" % (name, key, key, invs[key]))
+        n += 1
+        continue
+    if tbl == "ptab":
+        out.append("Example %s_tab_%s :\n  pairs_eqb %s %s = true.\nProof. vm_compute. reflexivity. Qed.\n" % (name, key, key, ptabs[key]))
+        n += 1
+        continue
     for (k, s, b) in tables[tbl]:
         kk = k.strip('"')
         if kk.endswith("._"):
